@@ -28,6 +28,7 @@ package testing
 //@   onpanic len(t.teardownStack) >= old(len(t.teardownStack))
 //@   onpanic forall j int :: 0 <= j && j < old(len(t.teardownStack)) ==> t.teardownStack[j] == old(t.teardownStack[j])
 //@   onpanic forall j int :: 0 <= j && j < len(t.teardownStack) ==> t.teardownStack[j] != nil
+//@   onpanic errorsIs(panicValue, errFailNow) ==> (t.tearingDown ? t.teardownFailed : t.failed)
 //@
 //@ fnspec userSetup(t *T) (r RunFn)
 //@   maypanic
@@ -41,3 +42,154 @@ package testing
 //@   onpanic old(t.teardownFailed) ==> t.teardownFailed
 //@   onpanic len(t.teardownStack) >= old(len(t.teardownStack))
 //@   onpanic forall j int :: 0 <= j && j < old(len(t.teardownStack)) ==> t.teardownStack[j] == old(t.teardownStack[j])
+//@   onpanic errorsIs(panicValue, errFailNow) ==> (t.tearingDown ? t.teardownFailed : t.failed)
+//@
+//@ globalinv {C07} errFailNow != nil
+//@ globalinv {C06} errFailNow != nil
+//@
+//@ pred wfT(t *T) = t != nil && !isnil(t.teardownStack) && (forall j int :: 0 <= j && j < len(t.teardownStack) ==> t.teardownStack[j] != nil)
+//@
+//@ // ---- C07: failure API
+//@ func (*T).Fail
+//@   props C07 C06
+//@   modifies t.failed, t.teardownFailed, marked
+//@   ghost at exit : marked = true
+//@   ensures [flag] t.tearingDown ? (t.teardownFailed && t.failed == old(t.failed)) : (t.failed && t.teardownFailed == old(t.teardownFailed))
+//@   ensures [marked] marked
+//@
+//@ func (*T).FailNow
+//@   props C07 C06
+//@   panics
+//@   modifies t.failed, t.teardownFailed, marked
+//@   ghost before call (*Bool).Store : marked = true
+//@   onpanic [flag] t.tearingDown ? (t.teardownFailed && t.failed == old(t.failed)) : (t.failed && t.teardownFailed == old(t.teardownFailed))
+//@   onpanic [sentinel] panicValue == errFailNow && marked
+//@
+//@ func (*T).Failed
+//@   props C07 C06 C16 C17
+//@   modifies nothing
+//@   ensures result == t.failed
+//@
+//@ func (*T).TeardownFailed
+//@   props C06
+//@   modifies nothing
+//@   ensures result == t.teardownFailed
+//@
+//@ func (*T).Reset
+//@   props C07 C06 C03
+//@   modifies t.Iteration, t.failed, t.teardownFailed, t.tearingDown, t.teardownStack
+//@   ensures [clean] !t.failed && !t.teardownFailed && !t.tearingDown && len(t.teardownStack) == 0 && t.Iteration == iter && wfT(t)
+//@
+//@ func (*T).Cleanup
+//@   props C06
+//@   requires wfT(t) && f != nil
+//@   modifies t.teardownStack
+//@   ensures [pushed] len(t.teardownStack) == old(len(t.teardownStack)) + 1 && t.teardownStack[old(len(t.teardownStack))] == f
+//@   ensures [kept] forall j int :: 0 <= j && j < old(len(t.teardownStack)) ==> t.teardownStack[j] == old(t.teardownStack[j])
+//@   ensures wfT(t)
+//@
+//@ func (*T).Errorf
+//@   props C07
+//@   modifies t.failed, t.teardownFailed, marked
+//@   ensures t.tearingDown ? (t.teardownFailed && t.failed == old(t.failed)) : (t.failed && t.teardownFailed == old(t.teardownFailed))
+//@   ensures marked
+//@
+//@ func (*T).Error
+//@   props C07
+//@   requires err != nil
+//@   modifies t.failed, t.teardownFailed, marked
+//@   ensures t.tearingDown ? (t.teardownFailed && t.failed == old(t.failed)) : (t.failed && t.teardownFailed == old(t.teardownFailed))
+//@   ensures marked
+//@
+//@ func (*T).Fatalf
+//@   props C07
+//@   panics
+//@   modifies t.failed, t.teardownFailed, marked
+//@   onpanic t.tearingDown ? (t.teardownFailed && t.failed == old(t.failed)) : (t.failed && t.teardownFailed == old(t.teardownFailed))
+//@   onpanic panicValue == errFailNow && marked
+//@
+//@ func (*T).Fatal
+//@   props C07
+//@   requires err != nil
+//@   panics
+//@   modifies t.failed, t.teardownFailed, marked
+//@   onpanic t.tearingDown ? (t.teardownFailed && t.failed == old(t.failed)) : (t.failed && t.teardownFailed == old(t.teardownFailed))
+//@   onpanic panicValue == errFailNow && marked
+//@
+//@ // ---- C07/C06: recovery. handlePanic classifies a recovered value: nil = no panic, the FailNow sentinel =
+//@ // already marked by FailNow, anything else = mark failed now.
+//@ func handlePanic
+//@   props C07 C06
+//@   requires t != nil
+//@   requires errorsIs(recovered, errFailNow) ==> (t.tearingDown ? t.teardownFailed : t.failed)
+//@   modifies t.failed, t.teardownFailed, marked
+//@   ensures [nopanic-noop] recovered == nil ==> t.failed == old(t.failed) && t.teardownFailed == old(t.teardownFailed)
+//@   ensures [panic-fails] recovered != nil ==> (t.tearingDown ? t.teardownFailed : t.failed)
+//@   ensures [monotone] (old(t.failed) ==> t.failed) && (old(t.teardownFailed) ==> t.teardownFailed)
+//@   ensures [other-flag] t.tearingDown ? t.failed == old(t.failed) : t.teardownFailed == old(t.teardownFailed)
+//@
+//@ func CheckResults
+//@   props C07 C06
+//@   recovers
+//@   unreachable 1
+//@   requires t != nil && done == nil
+//@   requires errorsIs(recovered, errFailNow) ==> (t.tearingDown ? t.teardownFailed : t.failed)
+//@   modifies t.failed, t.teardownFailed, marked
+//@   ensures [nopanic-noop] recovered == nil ==> t.failed == old(t.failed) && t.teardownFailed == old(t.teardownFailed)
+//@   ensures [panic-fails] recovered != nil ==> (t.tearingDown ? t.teardownFailed : t.failed)
+//@   ensures [monotone] (old(t.failed) ==> t.failed) && (old(t.teardownFailed) ==> t.teardownFailed)
+//@   ensures [other-flag] t.tearingDown ? t.failed == old(t.failed) : t.teardownFailed == old(t.teardownFailed)
+//@
+//@ // ---- C06: cleanups run exactly once, in reverse registration order, each individually recovered
+//@ ghost var Gcalled map[int]int
+//@ ghost var GlastCalled int
+//@
+//@ fnspec userCleanup(t *T)
+//@   maypanic
+//@   modifies t.failed, t.teardownFailed, t.teardownStack, marked
+//@   ensures old(t.failed) ==> t.failed
+//@   ensures old(t.teardownFailed) ==> t.teardownFailed
+//@   ensures (t.failed && !old(t.failed)) ==> (marked && !t.tearingDown)
+//@   ensures (t.teardownFailed && !old(t.teardownFailed)) ==> t.tearingDown
+//@   ensures len(t.teardownStack) >= old(len(t.teardownStack)) && !isnil(t.teardownStack)
+//@   ensures forall j int :: 0 <= j && j < old(len(t.teardownStack)) ==> t.teardownStack[j] == old(t.teardownStack[j])
+//@   ensures forall j int :: 0 <= j && j < len(t.teardownStack) ==> t.teardownStack[j] != nil
+//@   onpanic old(t.failed) ==> t.failed
+//@   onpanic old(t.teardownFailed) ==> t.teardownFailed
+//@   onpanic (t.failed && !old(t.failed)) ==> (marked && !t.tearingDown)
+//@   onpanic (t.teardownFailed && !old(t.teardownFailed)) ==> t.tearingDown
+//@   onpanic len(t.teardownStack) >= old(len(t.teardownStack)) && !isnil(t.teardownStack)
+//@   onpanic forall j int :: 0 <= j && j < old(len(t.teardownStack)) ==> t.teardownStack[j] == old(t.teardownStack[j])
+//@   onpanic forall j int :: 0 <= j && j < len(t.teardownStack) ==> t.teardownStack[j] != nil
+//@   onpanic errorsIs(panicValue, errFailNow) ==> (t.tearingDown ? t.teardownFailed : t.failed)
+//@
+//@ func (*T).teardown$1
+//@   props C06
+//@   requires wfT(t) && t.tearingDown && 0 <= i && i < len(t.teardownStack)
+//@   requires GlastCalled == i + 1
+//@   dyncall teardownStack : userCleanup(t)
+//@   ghost before call dyn:teardownStack : Gcalled[i] = Gcalled[i] + 1 ; GlastCalled = i
+//@   modifies t.failed, t.teardownFailed, t.teardownStack, marked, Gcalled, GlastCalled
+//@   ensures [once] Gcalled[i] == old(Gcalled[i]) + 1 && GlastCalled == i
+//@   ensures [others] forall j int :: j != i ==> Gcalled[j] == old(Gcalled[j])
+//@   ensures [stack] len(t.teardownStack) >= old(len(t.teardownStack))
+//@   ensures [kept] forall j int :: 0 <= j && j < old(len(t.teardownStack)) ==> t.teardownStack[j] == old(t.teardownStack[j])
+//@   ensures [flags] t.failed == old(t.failed) && (old(t.teardownFailed) ==> t.teardownFailed)
+//@   ensures [wf] wfT(t) && t.tearingDown
+//@
+//@ func (*T).teardown
+//@   props C06
+//@   requires wfT(t)
+//@   ghost at entry : GlastCalled = len(t.teardownStack)
+//@   modifies t.tearingDown, t.failed, t.teardownFailed, t.teardownStack, marked, Gcalled, GlastCalled
+//@   loop 0 invariant -1 <= i && i < old(len(t.teardownStack)) && GlastCalled == i + 1 && wfT(t) && t.tearingDown
+//@   loop 0 invariant len(t.teardownStack) >= old(len(t.teardownStack))
+//@   loop 0 invariant forall j int :: 0 <= j && j < old(len(t.teardownStack)) ==> t.teardownStack[j] == old(t.teardownStack[j])
+//@   loop 0 invariant forall j int :: i < j && j < old(len(t.teardownStack)) ==> Gcalled[j] == old(Gcalled[j]) + 1
+//@   loop 0 invariant forall j int :: (j <= i || j >= old(len(t.teardownStack))) ==> Gcalled[j] == old(Gcalled[j])
+//@   loop 0 invariant t.failed == old(t.failed) && (old(t.teardownFailed) ==> t.teardownFailed)
+//@   ensures [tearing] t.tearingDown
+//@   ensures [each-once] forall j int :: 0 <= j && j < old(len(t.teardownStack)) ==> Gcalled[j] == old(Gcalled[j]) + 1
+//@   ensures [only-those] forall j int :: (j < 0 || j >= old(len(t.teardownStack))) ==> Gcalled[j] == old(Gcalled[j])
+//@   ensures [lifo] GlastCalled == 0 || old(len(t.teardownStack)) == 0
+//@   ensures [body-flag-kept] t.failed == old(t.failed) && (old(t.teardownFailed) ==> t.teardownFailed)
